@@ -55,6 +55,10 @@ def call(name, inputs, out_is_string):
         return ("error", e.code)
     except (b09i.B09Error, sem.DomainError, sem.StepLimit) as e:
         return ("fault", "%s: %s" % (type(e).__name__, e))
+    # BASIC09 passes variables by reference: a helper that changes one of its *input* parameters changes the caller's variable
+    for k_, (r_, v_) in enumerate(zip(refs[:-1], inputs)):
+        if r_.temp != v_:
+            return ("fault", "input parameter %d was changed from %r to %r (parameters are passed by reference: the caller's variable is overwritten)" % (k_ + 1, v_, r_.temp))
     return ("value", out.temp)
 
 
